@@ -5,6 +5,7 @@ package rest
 import (
 	"net/http"
 
+	"github.com/zeromicro/go-zero/rest/handler"
 	"github.com/zeromicro/go-zero/rest/router"
 )
 
@@ -14,6 +15,9 @@ type VerifSigGroup struct {
 	Path      string
 	Signature *SignatureConf
 	Handler   http.HandlerFunc
+	// JwtSecret != "": the route option WithJwt(JwtSecret), or WithJwtTransition(JwtSecret, JwtPrev)
+	// when JwtPrev != "", is applied as well.
+	JwtSecret, JwtPrev string
 }
 
 // VerifBindSignatureGroups builds a REAL engine (newEngine, all native middlewares off, default
@@ -21,13 +25,32 @@ type VerifSigGroup struct {
 // by the real WithSignature option - binds them through the real bindRoutes (signatureVerifier,
 // appendAuthHandler, chain) onto the real router and returns the router. Construct-only.
 func VerifBindSignatureGroups(groups []VerifSigGroup) (http.Handler, error) {
+	return VerifBindGroups(groups, nil, nil)
+}
+
+// VerifBindGroups: the same, with the JWT route options and - when not nil - the engine-wide
+// callbacks set through the real setters (what the RunOptions WithUnauthorizedCallback /
+// WithUnsignedCallback do).
+func VerifBindGroups(groups []VerifSigGroup, unauthorized handler.UnauthorizedCallback, unsigned handler.UnsignedCallback) (http.Handler, error) {
 	var c RestConf
 	c.MaxBytes = 1 << 20
 	ng := newEngine(c)
+	if unauthorized != nil {
+		ng.setUnauthorizedCallback(unauthorized)
+	}
+	if unsigned != nil {
+		ng.setUnsignedCallback(unsigned)
+	}
 	for _, g := range groups {
 		fr := featuredRoutes{routes: []Route{{Method: http.MethodPost, Path: g.Path, Handler: g.Handler}}}
 		if g.Signature != nil {
 			WithSignature(*g.Signature)(&fr)
+		}
+		switch {
+		case g.JwtSecret != "" && g.JwtPrev != "":
+			WithJwtTransition(g.JwtSecret, g.JwtPrev)(&fr)
+		case g.JwtSecret != "":
+			WithJwt(g.JwtSecret)(&fr)
 		}
 		ng.addRoutes(fr)
 	}
